@@ -248,7 +248,7 @@ DEFAULT_FLAV = {"src": "cls", "call": "asyncdef"}
 
 
 def execute(case, L, *, sync=False, flav=None, susp=0, fault_kind="exc", cancel_at=None,
-            close_after_error=False):
+            close_after_error=False, cancel_cls=Cancelled):
     """Run one case against library namespace L (asyncstdlib, or Twin when sync)."""
     cfg = case["cfg"]
     tool, par, data = cfg["tool"], cfg["par"], cfg["data"]
@@ -321,7 +321,7 @@ def execute(case, L, *, sync=False, flav=None, susp=0, fault_kind="exc", cancel_
                 r = t.step()
         return r
 
-    cancel_exc = Cancelled("cancel") if cancel_at is not None else None
+    cancel_exc = cancel_cls("cancel") if cancel_at is not None else None
     o.fault_fired = False
 
     def classify(exc):
